@@ -452,6 +452,14 @@ PAYLOADS = [
     ("fstring-attr", "exec", "f\"{(7).__class__.__name__}#{(7).denominator}\"", ("int#1",)),
     ("fstring-doc", "exec", "f\"{True.__doc__}\"", ("bool(x) -> bool", "Returns True when the argument")),
     ("str-method-chain", "exec", "\"ab\".upper().__class__.__name__", ("\"str\"",)),
+    # string repetition with a large count, both operand orders (nothing of that size is built on the host)
+    ("str-repeat-count-first", "odd", "20000000 * \"ab\""),
+    ("str-repeat-count-first-huge", "odd", "3000000000 * \"ab\""),
+    ("str-repeat-text-first", "odd", "\"ab\" * 20000000"),
+    ("str-repeat-chain", "odd", "\"ab\" * 3000 * 3000 * 3000"),
+    ("str-repeat-pow-count", "odd", "2 ** 31 * \"x\""),
+    ("list-repeat", "odd", "[0] * 400000000"),
+    ("list-repeat-count-first", "odd", "400000000 * [1, 2]"),
     ("double-star", "odd", "**{'a': 1}"),
     ("nested-fstring", "odd", "f\"{f'{1+1}'}\""),
     ("fstring-spec", "odd", "f\"{1:{2}}\""),
